@@ -174,7 +174,7 @@ Inductive tok :=
 | THash (id : Z)
 | TComma | TSemi
 | TComment (id : Z)
-| TOther (id : Z).                      (* any other Sexp type (char, uint64, ...) *)
+| TOther (id : Z).                      (* any other Sexp type (the nil literal, char, uint64, ...) *)
 
 Section Table.
   Variable entries : list entry.
@@ -206,7 +206,7 @@ Section Table.
     | TComment _ => Some (lbp_comment K)
     | TPair _ => Some (lbp_pair K)
     | THash _ => Some (lbp_hash K)
-    | TOther _ => None
+    | TOther _ => lbp_other K
     end.
 
   (* Expression: curOp for the nud *)
